@@ -423,8 +423,9 @@ func Exec(b *rosmar.Bucket, c *rosmar.Collection, o *Op) (res Result) {
 		if o.Legacy && len(o.X) == 1 && len(o.XDel) == 0 && !o.DelBody && !o.BadJSONX {
 			// the same write through UpdateXattrDeleteBody (one xattr, handed over as a parsed value)
 			for name, val := range o.X {
+				// (decoded with number literals kept: a float64 decode here would round them before rosmar sees them)
 				var pv any
-				if json.Unmarshal([]byte(val), &pv) != nil {
+				if decodeExact([]byte(val), &pv) != nil {
 					pv = json.RawMessage(val)
 				}
 				res.CasOut, err = c.UpdateXattrDeleteBody(ctx, o.Key, name, o.Exp, o.Cas, pv, mutateOpts(o, false))
@@ -510,7 +511,7 @@ func Exec(b *rosmar.Bucket, c *rosmar.Collection, o *Op) (res Result) {
 }
 
 // XattrPool is the set of xattr names used by generators; read-backs always request all of them.
-var XattrPool = []string{"_sync", "_vv", "_x", "u1", "u2"}
+var XattrPool = []string{"_sync", "_vv", "_x", "_x2", "u1", "u2"} // "_x" is a proper prefix of "_x2"
 
 func isSystemXattr(name string) bool { return name != "" && name[0] == '_' }
 
